@@ -117,6 +117,8 @@ def dprModel (fn : String) (v : BitVec 64) : Option (List Byte) :=
   | "dec_sl" => printdecSLong v
   | "dec_sll" => printdecSLL v
   | "hex_u4" => some (printhexU4 (v.truncate 8 &&& 0x0F#8))
+  | "hex_u4x" => some (printhexU4 (v.truncate 8))      -- round 3b: the whole uint8_t argument range
+  | "bin_u4x" => some (printbinU4 (v.truncate 8))
   | "hex_u8" => some (printhexU8 (v.truncate 8))
   | "hex_c" | "hex_uc" | "hex_sc" => printhexChar (v.truncate 8)
   | "hex_u16" => some (printhexU16 (v.truncate 16))
@@ -149,7 +151,7 @@ def whModel (fn : String) (mem : List Byte) (p size : Nat) : Option (List Byte) 
   | "hexr" => writehexReversed mem p (BitVec.ofNat 16 size)
   | "bin" => writebin mem p (BitVec.ofNat 16 size)
   | "binr" => writebinReversed mem p (BitVec.ofNat 16 size)
-  | "hexn" => printhexN mem p size
+  | "hexn" => printhexNI mem p (BitVec.ofNat 32 size)   -- round 3b: `int n` at its C width
   | _ => none
 
 def hxaModel (w : Nat) (v : Nat) : Option String := do
@@ -195,15 +197,16 @@ def alphaModel : List Byte :=
   ++ (List.range 16).flatMap (fun d => printhexU4 (BitVec.ofNat 8 d))
   ++ (List.range 16).map (fun d => half2hex (BitVec.ofNat 8 d))
 
-/-- widths and signedness of the parameter / return types the model assumes
-    (`<bytes><s|u>`; value / base for the renderers, return / base for the parsers) -/
+/-- widths and signedness of the types the model assumes and the NAME of the entry point fixes
+    (`<bytes><s|u>`: value type of the renderers, return type of the parsers, argument of the typed
+    printers).  Round 3b: the types the property does not fix (base, size and length parameters) are
+    tags of the harness, no longer part of the compared line. -/
 def constsModel : String :=
   "int=4 long=8 short=2 ptr=8 char=s le "
-  ++ "toa:1s/1u,2s/1u,4s/1u,8s/1u,1u/1u,2u/1u,4u/1u,8u/1u "
-  ++ "ato:1s/1u,2s/1u,4s/1u,8s/1u,1u/1u,2u/1u,4u/1u,8u/1u "
-  ++ "lc:4s/2u,4u/2u,8s/2u,8u/2u atol:8s atoi:4s "
-  ++ "dpr:1u,2u,4u,8u,1u,2u,4u,8u,8u,1s,2s,4s,8s,8s,1u,1u,2u,4u,8u,1s,1u,2u,4u,8u,8u,1s,2s,4s,8s,8s,1u,1u,2u,4u,8u "
-  ++ "wh:2u,2u,2u,2u,4s dump:2u vt:4s"
+  ++ "toa:1s,2s,4s,8s,1u,2u,4u,8u "
+  ++ "ato:1s,2s,4s,8s,1u,2u,4u,8u "
+  ++ "lc:4s,4u,8s,8u atol:8s atoi:4s "
+  ++ "dpr:1u,2u,4u,8u,8u,1s,2s,4s,8s,8s,1u,1u,2u,4u,8u,1s,1u,2u,4u,8u,8u,1s,2s,4s,8s,8s,1u,1u,2u,4u,8u"
 
 def maxOf (k : String) : Nat := 2 ^ (if k.startsWith "i" then kbits k - 1 else kbits k) - 1
 
